@@ -33,4 +33,17 @@ def queries(backend):
         for ik, i in inner.items():
             out.append((f"{hk}:inner-only:{ik}", f"ds.Select(lambda e: {h}).Select(lambda js: Range(0, 2).Select(lambda i: {i}))"))
             out.append((f"{hk}:where-then-inner:{ik}", f"ds.Select(lambda e: {h}).Where(lambda js: js.Count() > 0).Select(lambda js: Range(0, 2).Select(lambda i: {i}))"))
+    # the bound sequence inside a CONDITIONAL: in the test, inside an arm (which is a block of its own) and once more at event
+    # level - before or after the conditional.  What the arm computed stays in the arm; the event-level use is computed for
+    # every event, whichever arm was taken
+    for hk, (h, kind) in heads.items():
+        proj = "js.Select(lambda j: j.pt())" if kind == "obj" else "js"
+        conds = {"sum-if-any": f"({proj}.Sum() if js.Count() > 0 else -1.0)", "count-if-many": "(js.Count() if js.Count() > 1 else 0)",
+                 "sum-else": f"(-1.0 if js.Count() == 0 else {proj}.Sum())", "sum-both-arms": f"({proj}.Sum() if js.Count() > 1 else {proj}.Sum() * 2)"}
+        afters = {"count": "js.Count()", "sum": f"{proj}.Sum()", "vals": proj}
+        for (ck, c), (ak, af) in itertools.product(conds.items(), afters.items()):
+            out.append((f"{hk}:cond-then-use:{ck}:{ak}", f"ds.Select(lambda e: {h}).Select(lambda js: ({c}, {af}))"))
+            out.append((f"{hk}:use-then-cond:{ck}:{ak}", f"ds.Select(lambda e: {h}).Select(lambda js: ({af}, {c}))"))
+        for ck, c in conds.items():
+            out.append((f"{hk}:cond-dict:{ck}", f"ds.Select(lambda e: {h}).Select(lambda js: {{'lead': {c}, 'n': js.Count()}})"))
     return out
